@@ -3,10 +3,15 @@
 package api
 
 import (
+	"bufio"
 	"bytes"
 	"errors"
 	"fmt"
 	"io"
+	"net"
+	"os"
+	"os/exec"
+	"path/filepath"
 	"net/http"
 	"net/url"
 	"path"
@@ -18,14 +23,19 @@ import (
 	"github.com/gin-gonic/gin"
 	"github.com/google/uuid"
 
+	"github.com/bluenviron/mediamtx/internal/auth"
 	"github.com/bluenviron/mediamtx/internal/conf"
 	"github.com/bluenviron/mediamtx/internal/defs"
+	"github.com/bluenviron/mediamtx/internal/logger"
+	"github.com/bluenviron/mediamtx/internal/metrics"
 	"github.com/bluenviron/mediamtx/internal/playback"
+	"github.com/bluenviron/mediamtx/internal/pprof"
 	"github.com/bluenviron/mediamtx/internal/protocols/httpp"
 	"github.com/bluenviron/mediamtx/internal/protocols/moq/controlmessage"
 	"github.com/bluenviron/mediamtx/internal/protocols/moq/subgroup"
 	"github.com/bluenviron/mediamtx/internal/protocols/moq/varint"
 	"github.com/bluenviron/mediamtx/internal/servers/hls"
+	"github.com/bluenviron/mediamtx/internal/servers/moq"
 	"github.com/bluenviron/mediamtx/internal/servers/rtmp"
 	"github.com/bluenviron/mediamtx/internal/servers/rtsp"
 	"github.com/bluenviron/mediamtx/internal/servers/srt"
@@ -276,10 +286,150 @@ func c35nameErr(err error) string {
 	return "bad other"
 }
 
+// ---------- real HTTP front ends on loopback listeners ----------
+
+type c35auth struct{ allow bool }
+
+func (a c35auth) Authenticate(*auth.Request) (string, *auth.Error) {
+	if a.allow {
+		return "", nil
+	}
+	return "", &auth.Error{AskCredentials: true}
+}
+func (c35auth) RefreshJWTJWKS() {}
+
+type c35apiParent struct{}
+
+func (c35apiParent) Log(logger.Level, string, ...any)                      {}
+func (c35apiParent) APIConfigSnapshot() *conf.Conf                         { return &conf.Conf{} }
+func (c35apiParent) APIConfigGlobalPatch(conf.OptionalGlobal) error        { return fmt.Errorf("verif") }
+func (c35apiParent) APIConfigPathDefaultsPatch(conf.OptionalPath) error    { return fmt.Errorf("verif") }
+func (c35apiParent) APIConfigPathsAdd(string, conf.OptionalPath) error     { return fmt.Errorf("verif") }
+func (c35apiParent) APIConfigPathsPatch(string, conf.OptionalPath) error   { return fmt.Errorf("verif") }
+func (c35apiParent) APIConfigPathsReplace(string, conf.OptionalPath) error { return fmt.Errorf("verif") }
+func (c35apiParent) APIConfigPathsDelete(string) error                     { return fmt.Errorf("verif") }
+
+var c35frontEnds = []string{"bare", "hls", "webrtc", "api", "playback", "metrics", "pprof"}
+
+var c35listening = map[string]string{}
+
+func c35freeAddr() string {
+	ln, err := net.Listen("tcp", "127.0.0.1:0")
+	if err != nil {
+		panic(err)
+	}
+	defer ln.Close()
+	return ln.Addr().String()
+}
+
+// c35listen starts (once) the real front end and returns its address.
+func c35listen(fe string) string {
+	if a, ok := c35listening[fe]; ok {
+		return a
+	}
+	addr := c35freeAddr()
+	to := conf.Duration(2 * time.Second)
+	var err error
+	switch fe {
+	case "bare": // httpp.Server around a trivial handler: the chain every front end shares
+		srv := &httpp.Server{
+			Address: addr, ReadTimeout: 2 * time.Second, WriteTimeout: 2 * time.Second,
+			Handler: http.HandlerFunc(func(w http.ResponseWriter, r *http.Request) {
+				io.Copy(io.Discard, r.Body) //nolint:errcheck
+				w.WriteHeader(http.StatusOK)
+			}),
+			Parent: c35apiParent{},
+		}
+		err = srv.Initialize()
+	case "hls":
+		err = hls.VerifC35Listen(addr)
+	case "webrtc":
+		err = webrtc.VerifC35Listen(addr)
+	case "api":
+		err = (&API{Address: addr, ReadTimeout: to, WriteTimeout: to, AuthManager: c35auth{}, Parent: c35apiParent{}}).Initialize()
+	case "playback":
+		err = (&playback.Server{Address: addr, ReadTimeout: to, WriteTimeout: to, AuthManager: c35auth{allow: true}, Parent: c35apiParent{}}).Initialize()
+	case "metrics":
+		err = (&metrics.Metrics{Address: addr, ReadTimeout: to, WriteTimeout: to, AuthManager: c35auth{}, Parent: c35apiParent{}}).Initialize()
+	case "pprof":
+		err = (&pprof.PPROF{Address: addr, ReadTimeout: to, WriteTimeout: to, AuthManager: c35auth{}, Parent: c35apiParent{}}).Initialize()
+	default:
+		panic("verif: unknown front end " + fe)
+	}
+	if err != nil {
+		panic("verif: cannot start " + fe + ": " + err.Error())
+	}
+	c35listening[fe] = addr
+	return addr
+}
+
+// c35http sends raw bytes to the front end over a real TCP connection, half-closes, and returns the
+// status code of the first response ("none" = connection closed without a response).
+func c35http(fe string, raw []byte) string {
+	addr := c35listen(fe)
+	c, err := net.DialTimeout("tcp", addr, 2*time.Second)
+	if err != nil {
+		return "dial-failed" // the listener is gone: the process is about to die or died
+	}
+	defer c.Close()
+	c.SetDeadline(time.Now().Add(4 * time.Second)) //nolint:errcheck
+	c.Write(raw)                                   //nolint:errcheck
+	if tc, ok := c.(*net.TCPConn); ok {
+		tc.CloseWrite() //nolint:errcheck
+	}
+	line, _ := bufio.NewReader(c).ReadString('\n')
+	f := strings.Fields(line)
+	if len(f) >= 2 && strings.HasPrefix(f[0], "HTTP/") {
+		io.Copy(io.Discard, c) //nolint:errcheck
+		return f[1]
+	}
+	return "none"
+}
+
+// history of the current case (since the last reset), written to a side file before every op so that
+// the parent process can name the crash history if this process dies (os.Exit in handlerExitOnPanic,
+// or an unrecovered panic in a session goroutine).
+var (
+	c35cur  *os.File
+	c35hist []string
+)
+
+func c35mark(op string) {
+	if c35cur == nil {
+		return
+	}
+	if op == "reset" {
+		c35hist = c35hist[:0]
+	}
+	c35hist = append(c35hist, op)
+	c35cur.Truncate(0)                                              //nolint:errcheck
+	c35cur.WriteAt([]byte(strings.Join(c35hist, "\n")+"\n"), 0) //nolint:errcheck
+}
+
 func verifC35Exec(op string) string {
 	f := strings.Fields(op)
+	c35mark(op)
 	switch f[0] {
 	case "reset":
+		moq.VerifC35Close()
+		return "ok"
+	case "http":
+		return c35http(f[1], verifutil.UnHex(f[2]))
+	case "mq":
+		switch f[1] {
+		case "open":
+			moq.VerifC35Open(f[2], f[3] == "quic")
+		case "bidi":
+			moq.VerifC35Stream(verifutil.Atoi(f[2]), false)
+		case "uni":
+			moq.VerifC35Stream(verifutil.Atoi(f[2]), true)
+		case "w":
+			moq.VerifC35Write(verifutil.Atoi(f[2]), verifutil.UnHex(f[3]), false)
+		case "fin":
+			moq.VerifC35Write(verifutil.Atoi(f[2]), nil, true)
+		case "state":
+			return moq.VerifC35State()
+		}
 		return "ok"
 	case "srt":
 		ok, pub, pa, q, u, pw := srt.VerifC35StreamID(verifutil.UnHexS(f[1]))
@@ -646,7 +796,227 @@ func c35extra(r *verifutil.Rand) string {
 	}
 }
 
+// raw HTTP/1.x requests as a hostile client writes them
+func c35rawHTTP(r *verifutil.Rand, fe string) []byte {
+	target := c35path(r)
+	switch fe {
+	case "api":
+		target = r.Pick("/v3/paths/list", "/v3/config/paths/get/a", "/v3/paths/get/", "/v3/config/global/patch", "/v3/info", "/v3/rtspconns/get/x", "/v3", "/")
+	case "playback":
+		target = r.Pick("/list?path=a", "/get?path=a&start=2024-01-02T03:04:05Z&duration=10", "/get?path=/&start=x", "/list", "/get?path=a%2f..&duration=1e400", "/")
+	case "metrics":
+		target = r.Pick("/metrics", "/metrics?type=paths", "/metrics?path=a", "/", "/x")
+	case "pprof":
+		target = r.Pick("/debug/pprof/", "/debug/pprof/heap?debug=1", "/debug/pprof/cmdline", "/", "/debug/pprof/profile?seconds=-1")
+	case "webrtc":
+		if r.Bool() {
+			target = r.Pick("/a/whip", "/a/whep", "/a/whip/"+uuid.New().String(), "/a/publish", "/a/")
+		}
+	}
+	switch r.Intn(12) {
+	case 0:
+		target = "http://127.0.0.1" + target // absolute-form
+	case 1:
+		target = "http://127.0.0.1" // absolute-form without a path
+	case 2:
+		target = "*"
+	case 3:
+		target = "127.0.0.1:80" // authority-form
+	}
+	method := r.Pick("GET", "GET", "POST", "POST", "OPTIONS", "PATCH", "DELETE", "HEAD", "PUT", "TRACE", "CONNECT", "FOO", "get", "PRI")
+	version := r.Pick("HTTP/1.1", "HTTP/1.1", "HTTP/1.1", "HTTP/1.1", "HTTP/1.1", "HTTP/1.0", "HTTP/1.0", "HTTP/2.0", "HTTP/0.9")
+	body := r.Bytes(r.Intn(40))
+	if r.Intn(4) == 0 {
+		body = []byte("v=0\r\no=- 0 0 IN IP4 0.0.0.0\r\ns=-\r\nt=0 0\r\n")
+	}
+	var b bytes.Buffer
+	fmt.Fprintf(&b, "%s %s %s\r\n", method, target, version)
+	if r.Intn(8) != 0 {
+		b.WriteString("Host: 127.0.0.1\r\n")
+	}
+	if r.Intn(3) == 0 {
+		b.WriteString("Content-Type: " + r.Pick("application/sdp", "application/trickle-ice-sdpfrag", "text/plain", ";") + "\r\n")
+	}
+	if r.Intn(4) == 0 {
+		b.WriteString("Authorization: " + r.Pick("Bearer a:b", "Bearer x", "Basic dXNlcjpwYXNz", "Bearer") + "\r\n")
+	}
+	if r.Intn(6) == 0 {
+		b.WriteString("Expect: 100-continue\r\n")
+	}
+	if r.Intn(5) == 0 {
+		b.WriteString("Access-Control-Request-Method: POST\r\nOrigin: http://x\r\n")
+	}
+	chunked := func() {
+		b.WriteString("\r\n")
+		switch r.Intn(4) {
+		case 0: // well-formed chunks
+			fmt.Fprintf(&b, "%x\r\n%s\r\n0\r\n\r\n", len(body), body)
+		case 1: // no terminating chunk
+			fmt.Fprintf(&b, "%x\r\n%s\r\n", len(body), body)
+		case 2: // chunk size larger than the data
+			fmt.Fprintf(&b, "%x\r\n%s", len(body)+100, body)
+		default: // garbage chunk header
+			b.WriteString("zz\r\n")
+			b.Write(body)
+		}
+	}
+	switch r.Intn(10) {
+	case 0, 1, 2: // undeclared length: chunked
+		b.WriteString("Transfer-Encoding: chunked\r\n")
+		chunked()
+	case 3: // declared, exact
+		fmt.Fprintf(&b, "Content-Length: %d\r\n\r\n", len(body))
+		b.Write(body)
+	case 4: // declared but short
+		fmt.Fprintf(&b, "Content-Length: %d\r\n\r\n", len(body)+1+r.Intn(100000))
+		b.Write(body)
+	case 5: // huge / odd declared lengths
+		b.WriteString("Content-Length: " + r.Pick("9223372036854775807", "18446744073709551616", "-1", "+5", "0x10", "1e3", "") + "\r\n\r\n")
+		b.Write(body)
+	case 6: // both
+		fmt.Fprintf(&b, "Content-Length: %d\r\nTransfer-Encoding: chunked\r\n", len(body))
+		chunked()
+	case 7: // duplicated content-length
+		fmt.Fprintf(&b, "Content-Length: %d\r\nContent-Length: %d\r\n\r\n", len(body), len(body)+r.Intn(2))
+		b.Write(body)
+	case 8: // body without any declaration (HTTP/1.0 style, until close)
+		b.WriteString("\r\n")
+		b.Write(body)
+	default: // no body
+		b.WriteString("\r\n")
+	}
+	out := b.Bytes()
+	if r.Intn(15) == 0 {
+		out = out[:r.Intn(len(out)+1)] // truncated request
+	}
+	return out
+}
+
+func c35httpOp(r *verifutil.Rand) string {
+	fe := c35frontEnds[r.Intn(len(c35frontEnds))]
+	return "http " + fe + " " + verifutil.Hex(c35rawHTTP(r, fe))
+}
+
+func c35moqSetupBytes(r *verifutil.Rand, version string, quic bool, bidi bool) []byte {
+	opts := controlmessage.Setup{}
+	if quic || r.Intn(6) == 0 {
+		opts.Path = "/" + r.Pick("teststream", "a", "a?x=y", "")
+	}
+	switch {
+	case r.Intn(8) == 0:
+		return c35moqMsg(r)
+	case version == "moqt-16" || r.Intn(6) == 0:
+		if bidi || r.Bool() {
+			return controlmessage.ClientSetup(opts).Marshal()
+		}
+		return controlmessage.ServerSetup(opts).Marshal()
+	default:
+		return opts.Marshal()
+	}
+}
+
+// c35moqHistory: one session, several client streams whose messages are cut into fragments and
+// interleaved in random order (partial writes, completion in either order, early FIN).
+func c35moqHistory(r *verifutil.Rand) []string {
+	version := r.Pick("moqt-16", "moqt-16", "moqt-17", "moqt-18", "moqt-19")
+	quic := r.Intn(3) == 0
+	tr := "wt"
+	if quic {
+		tr = "quic"
+	}
+	ops := []string{"reset", "mq open " + version + " " + tr}
+	n := 1 + r.Intn(3)
+	type frag struct {
+		id   int
+		data []byte
+		fin  bool
+	}
+	queues := make([][]frag, n)
+	opened := make([]bool, n)
+	kinds := make([]string, n)
+	for id := 0; id < n; id++ {
+		bidi := r.Intn(3) != 0
+		kinds[id] = "uni"
+		if bidi {
+			kinds[id] = "bidi"
+		}
+		var data []byte
+		switch r.Intn(5) {
+		case 0, 1, 2:
+			data = c35moqSetupBytes(r, version, quic, bidi)
+		case 3:
+			data = append(c35moqSetupBytes(r, version, quic, bidi), c35moqMsg(r)...)
+		default:
+			if bidi {
+				data = c35moqMsg(r)
+			} else {
+				data = c35moqSG(r)
+			}
+		}
+		if len(data) == 0 {
+			data = []byte{0x20}
+		}
+		// cut into 1..3 fragments; the first is often the single first byte
+		cuts := []int{}
+		if len(data) > 1 && r.Intn(3) != 0 {
+			cuts = append(cuts, 1)
+		}
+		if len(data) > 3 && r.Bool() {
+			cuts = append(cuts, 2+r.Intn(len(data)-2))
+		}
+		prev := 0
+		for _, c := range cuts {
+			if c > prev {
+				queues[id] = append(queues[id], frag{id, data[prev:c], false})
+				prev = c
+			}
+		}
+		queues[id] = append(queues[id], frag{id, data[prev:], false})
+		if r.Intn(4) == 0 {
+			queues[id] = append(queues[id], frag{id, nil, true})
+		}
+	}
+	// streams are opened either all up front (so that the server accepts them before any byte) or lazily
+	upfront := r.Bool()
+	if upfront {
+		for id := 0; id < n; id++ {
+			ops = append(ops, fmt.Sprintf("mq %s %d", kinds[id], id))
+			opened[id] = true
+		}
+	}
+	for {
+		var live []int
+		for id := range queues {
+			if len(queues[id]) > 0 {
+				live = append(live, id)
+			}
+		}
+		if len(live) == 0 {
+			break
+		}
+		id := live[r.Intn(len(live))]
+		if !opened[id] {
+			ops = append(ops, fmt.Sprintf("mq %s %d", kinds[id], id))
+			opened[id] = true
+		}
+		fr := queues[id][0]
+		queues[id] = queues[id][1:]
+		if fr.fin {
+			ops = append(ops, fmt.Sprintf("mq fin %d", id))
+		} else {
+			ops = append(ops, fmt.Sprintf("mq w %d %s", id, verifutil.Hex(fr.data)))
+		}
+	}
+	return append(ops, "mq state")
+}
+
 func verifC35Gen(r *verifutil.Rand, i int, thorough bool) []string {
+	switch r.Intn(16) {
+	case 0:
+		return c35moqHistory(r)
+	case 1, 2:
+		return []string{"reset", c35httpOp(r)}
+	}
 	var op string
 	switch r.Intn(13) {
 	case 10, 11, 12:
@@ -712,9 +1082,50 @@ func verifC35Class(op, impl string) string {
 
 func TestVerifC35(t *testing.T) {
 	_ = url.URL{}
-	verifutil.Main(t, &verifutil.Harness{
+	out := os.Getenv("VERIF_OUT")
+	if out == "" {
+		t.Skip("VERIF_OUT not set")
+	}
+	h := &verifutil.Harness{
 		ID: "C35", Exec: verifC35Exec, Gen: verifC35Gen, Quick: 5000, Thorough: 150000,
 		Class:      verifC35Class,
 		NonTrivial: func(op, impl string) bool { return op != "reset" },
-	})
+	}
+	curPath := filepath.Join(out, "current-history")
+	if os.Getenv("VERIF_C35_CHILD") == "1" {
+		c35cur, _ = os.Create(curPath)
+		verifutil.Main(t, h)
+		return
+	}
+	// the property is about the process staying alive: the real harness runs in a child process; if it
+	// dies (os.Exit(1) in handlerExitOnPanic, unrecovered panic in a connection / session goroutine) the
+	// history of the current case becomes the failing input
+	os.Remove(curPath) //nolint:errcheck
+	cmd := exec.Command(os.Args[0], "-test.run", "^TestVerifC35$", "-test.count=1", "-test.timeout", "3000s")
+	cmd.Env = append(os.Environ(), "VERIF_C35_CHILD=1")
+	outb, err := cmd.CombinedOutput()
+	if _, serr := os.Stat(filepath.Join(out, "stats.json")); err == nil && serr == nil {
+		return
+	}
+	cur, rerr := os.ReadFile(curPath)
+	if rerr != nil || len(cur) == 0 {
+		t.Fatalf("harness child failed before any op: %v\n%s", err, outb)
+	}
+	reason := "process exited"
+	for _, l := range strings.Split(string(outb), "\n") {
+		if strings.HasPrefix(l, "fatal error:") || strings.HasPrefix(l, "panic:") {
+			reason = strings.TrimSpace(l)
+			break
+		}
+	}
+	lines := strings.Split(strings.TrimRight(string(cur), "\n"), "\n")
+	impl := make([]string, len(lines))
+	for i := range impl {
+		impl[i] = "ok"
+	}
+	impl[len(impl)-1] = "panic process died: " + reason
+	os.WriteFile(filepath.Join(out, "ops.txt"), []byte(strings.Join(lines, "\n")+"\n"), 0o644)  //nolint:errcheck
+	os.WriteFile(filepath.Join(out, "impl.out"), []byte(strings.Join(impl, "\n")+"\n"), 0o644) //nolint:errcheck
+	os.WriteFile(filepath.Join(out, "stats.json"), []byte(`{"evaluations":1,"distinct_nontrivial":1,"cases":1,"panics":1,`+
+		`"distribution":{"process-died":1},"samples":[]}`), 0o644) //nolint:errcheck
 }
